@@ -184,6 +184,48 @@ def _entry_read(fl: Flow, e, calls, key=None) -> bool:
     return False
 
 
+def _hands_out_state(p, fl: Flow, e, calls) -> bool:
+    """e is `<h>()`, `<h>.<m>()` or `<h>.<prop>` where <h> is a local that holds an entry of a harvested dict, and the
+    method / `__call__` / property getter of that name — in a class of the package that can be edited in place (has
+    `__setitem__` or a property setter) — returns one of the instance's own fields as it is (`return self._map`): the
+    expression is then the helper's inner object, not a new one.  Unresolved names decide nothing (False)."""
+    if isinstance(e, ast.Call):
+        f = e.func
+        if isinstance(f, ast.Name):
+            recv, member = f, "__call__"
+        elif isinstance(f, ast.Attribute) and isinstance(f.value, ast.Name):
+            recv, member = f.value, f.attr
+        else:
+            return False
+    elif isinstance(e, ast.Attribute) and isinstance(e.value, ast.Name):
+        recv, member = e.value, e.attr
+    else:
+        return False
+    if member in ("copy", "deepcopy", "get", "pop", "items", "keys", "values"):
+        return False
+    try:
+        ros = fl.origins_at(recv)
+    except Exception:  # noqa: BLE001 - an unresolvable receiver decides nothing
+        return False
+    if not any(_entry_read(fl, o, calls) for o in ros or []):
+        return False
+    for c in p.classes:
+        if c.synthetic or not ("__setitem__" in c.methods or any(pr.setter is not None for pr in c.props.values())):
+            continue
+        if isinstance(e, ast.Call):
+            fn = c.methods.get(member)
+        else:
+            pr = c.props.get(member)
+            fn = pr.getter if pr is not None else None
+        if fn is None:
+            continue
+        me = fn.self_name or "self"
+        rets = [r for r in ast.walk(fn.node) if isinstance(r, ast.Return) and r.value is not None]
+        if rets and any(isinstance(r.value, ast.Attribute) and isinstance(r.value.value, ast.Name) and r.value.value.id == me for r in rets):
+            return True
+    return False
+
+
 def _is_copy_call(e) -> bool:
     return isinstance(e, ast.Call) and (unparse(e.func) in COPY_CALLS or (isinstance(e.func, ast.Attribute) and e.func.attr in ("copy", "deepcopy")))
 
@@ -900,8 +942,10 @@ def rule_shape(ctx) -> RuleResult:
     recreated = set()
     for key, val, _st in list(_dict_stores(tfl, tv.node, type_calls)) + list(_table_stores(ctx, ctp, tfl, tv.node, type_calls)):
         os_ = tfl.origins_at(val)
-        # the stored value is built anew: it is neither a value that came in from outside nor an entry of a harvested dict
-        if os_ and not any(isinstance(o, ast.Name) or _entry_read(tfl, o, type_calls + ent_calls) for o in os_):
+        # the stored value is built anew: it is neither a value that came in from outside nor an entry of a harvested dict,
+        # nor what a harvested helper hands out of its own state (`value_map()` / `value_map.map`: the helper's inner dict)
+        if os_ and not any(isinstance(o, ast.Name) or _entry_read(tfl, o, type_calls + ent_calls)
+                           or _hands_out_state(p, tfl, o, type_calls + ent_calls) for o in os_):
             recreated.add(key)
     type_fam = {c.name for c in p.subclasses(ety)}
 
